@@ -1366,6 +1366,31 @@ int32_t tls13ParseClientHello(ssl_t *ssl,
 
     if (handleTls13Message)
     {
+        psSizeL_t nSuites = cipherSuitesLen / 2;
+
+        /* Remember what was offered (server side use of this field): a
+           resumption PSK may only bring its own suite into use if it is
+           in this list. */
+        if (nSuites > 255)
+        {
+            nSuites = 255;
+        }
+        psFree(ssl->tls13ClientCipherSuites, ssl->hsPool);
+        ssl->tls13ClientCipherSuitesLen = 0;
+        ssl->tls13ClientCipherSuites = psMalloc(ssl->hsPool,
+                nSuites * sizeof(*ssl->tls13ClientCipherSuites));
+        if (ssl->tls13ClientCipherSuites == NULL)
+        {
+            ssl->err = SSL_ALERT_INTERNAL_ERROR;
+            return PS_MEM_FAIL;
+        }
+        for (i = 0; i < (int32_t)nSuites; i++)
+        {
+            ssl->tls13ClientCipherSuites[i] =
+                (cipherSuitesStart[2 * i] << 8) | cipherSuitesStart[2 * i + 1];
+        }
+        ssl->tls13ClientCipherSuitesLen = (uint8_t)nSuites;
+
         psTracePrintEncodedCipherList(INDENT_HS_MSG,
                 "cipher_suites",
                 cipherSuitesStart,
